@@ -34,11 +34,11 @@ Qed.
 Lemma load_loaded srt schema key name flags replies bk :
   load srt schema key name flags replies = Loaded bk ->
   exists tds, load_tables srt flags (filter stored schema) replies = Some tds /\
-              bk = mkBackend key name flags true [] (with_idlists tds) /\ refs_ok schema bk = true.
+              bk = mkBackend key name flags true [] (with_idlists tds).
 Proof.
   unfold load. destruct (load_tables _ _ _ _) as [tds|]; [|discriminate].
   destruct (td_rows (table_or_empty tds (s "status"))); [discriminate|].
-  destruct (refs_ok _ _) eqn:E; [|discriminate]. intros [= <-]. exists tds. repeat split. exact E.
+  intros [= <-]. exists tds. repeat split.
 Qed.
 
 Lemma load_tables_in srt flags ts replies tds td :
@@ -99,7 +99,7 @@ Lemma load_faithful srt schema key name flags replies bk t :
         nth i (coerce_row cols row) (VStr []) = natural (c_type c) (nth i (norm_row row) (RAtom ANull)))).
 Proof.
   intros Hok Hnt Hnc Hload Hin cols.
-  destruct (load_loaded _ _ _ _ _ _ _ Hload) as (tds & Htds & -> & _).
+  destruct (load_loaded _ _ _ _ _ _ _ Hload) as (tds & Htds & ->).
   destruct (load_tables_find _ _ _ _ _ _ Hok Hnt Htds Hin) as (td0 & Hfind & Hlt).
   destruct (with_idlists_shape tds) as (g & Hg & Hshape).
   destruct (load_table_spec _ _ _ _ _ Hok Hlt) as (Hname & Hcols & HP & Hw).
@@ -164,21 +164,6 @@ Lemma ref_dangling schema bk t td r c rtn rcn :
 Proof.
   intros Hs Hr Hfr. unfold get_col, get_out. rewrite Hs, Hr, Hfr.
   destruct (negb (has_flag (b_flags bk) (c_opt c))); reflexivity.
-Qed.
-
-(** after a successful load every mandatory reference resolves *)
-Lemma load_refs_total srt schema key name flags replies bk t td r rf :
-  load srt schema key name flags replies = Loaded bk ->
-  In t (filter stored schema) -> find_data bk (t_name t) = Some td -> In r (td_rows td) ->
-  In rf (t_refs t) -> ref_optional t (fst rf) = false ->
-  exists x, find_ref schema bk t td r (fst rf) = Some x.
-Proof.
-  intros Hload Ht Htd Hr Hrf Hopt.
-  destruct (load_loaded _ _ _ _ _ _ _ Hload) as (tds & _ & _ & Hok).
-  unfold refs_ok in Hok. rewrite forallb_forall in Hok. specialize (Hok _ Ht). rewrite Htd in Hok.
-  rewrite forallb_forall in Hok. specialize (Hok _ Hr). rewrite forallb_forall in Hok. specialize (Hok _ Hrf).
-  rewrite Hopt in Hok. cbn [orb] in Hok.
-  destruct (find_ref schema bk t td r (fst rf)) as [x|]; [exists x; reflexivity|discriminate].
 Qed.
 
 (** group member states: the entry of member [m] shows the state of THE host named [m] *)
